@@ -34,6 +34,8 @@ def tasks(tier, seed):
                    fuc=['segno.encoder.normalize_errorlevel']))
     ts.append(Task('level_tables', MOD, 'task_tables', (), backend='ground', fuc=['segno.consts (tables)']))
     ts.append(Task('api_wrappers', 'contracts.api', 'task_wrappers', ('C05',), backend='ground', fuc=__import__('contracts.api', fromlist=['FUC']).FUC))
+    from . import glue
+    ts += glue.glue_tasks('C05')
     return ts
 
 
